@@ -563,7 +563,7 @@ def main():
             na.append({"property_id": pid, "reason": PENDING_REASON})
     m = {
         "version": 1,
-        "setup_cmd": "cd lean && lake build",
+        "setup_cmd": "cd lean && lake build && lake build SpiceEvGen",
         "hooks": {
             "guard": "SPICE_EV_VERIF",
             "enable": "no in-source hooks: the harness wraps the real classes at run time in-process "
